@@ -506,7 +506,24 @@ def py_both(rq):
     return st, info
 
 
-def classify(answer, info):
+def partition_hidden_by_inner_select(doc, cid):
+    """is `cid` a partition column of a Take / window whose group pipeline ended in a Select that does not list it, while a
+    later Select (the one the group itself appends) lists it again?"""
+    for _, ts in pipelines(doc):
+        parts, cut = set(), False
+        for t in ts:
+            k = next(iter(t))
+            if k == "Take":
+                parts |= set(t["Take"].get("partition") or [])
+            elif k == "Compute" and (t["Compute"].get("window") or {}).get("partition"):
+                parts |= set(t["Compute"]["window"]["partition"])
+            elif k == "Select":
+                if cid in parts and cid not in t["Select"]:
+                    return True         # whatever uses it afterwards (the group's own Select, a later compute / sort / filter)
+    return False
+
+
+def classify(answer, info, doc=None):
     """known-finding predicates for a real RQ that fails wfRq.
     stale-sort-*: the relaxed predicate holds (the only defect is a stale sort column in a Take / window) and the column was cut
     off by an Aggregate resp. a Select.
@@ -518,6 +535,14 @@ def classify(answer, info):
             return "stale-sort-after-aggregate"
         if info.get("cut_by") == "Select":
             return "stale-sort-after-select"
+    m2 = re.fullmatch(r"bad not-visible (\d+); lax bad not-visible (\d+)", answer)
+    if doc is not None and m2 and any(partition_hidden_by_inner_select(doc, int(x)) for x in m2.groups()):
+        return "group-pipeline-select-hides-partition-column"
+    if doc is not None and re.fullmatch(r"bad not-visible (\d+); lax bad not-visible \1", answer) and site in ("Join.filter", "Select") and info.get("foreign"):
+        # the offending id is a Compute of ANOTHER relation (the inline pipeline that is the join's right-hand side)
+        other = [t for tab in doc["tables"] for t in (tab["relation"]["kind"].get("Pipeline") or []) if "Compute" in t and t["Compute"]["id"] == info.get("cid")]
+        if other:
+            return "inline-side-compute-id-not-redirected"
     if re.fullmatch(r"bad not-visible (\d+); lax bad not-visible \1", answer) and info.get("foreign"):
         if site in ("Take.sort", "Compute.window.sort") or (site == "Compute.expr" and info.get("compute_dead")):
             return "sort-leaks-into-subpipeline"
@@ -555,7 +580,7 @@ def monitor(ctx, label, progs, rng, mutate_p):
             ctx.disagreement("wfRq-vs-python", f"Lean wfRq says {m!r}, the Python re-implementation says {py!r}", {"prql": p, "origin": origin, "model": m, "python": py})
         if not m.startswith("ok"):
             nbad += 1
-            fid = classify(m, info)
+            fid = classify(m, info, d)
             ctx.count(f"{label}:bad:" + (fid or "UNCLASSIFIED"))
             ctx.oracle_failure(fid, f"the resolver emitted an RQ that is not well-formed: {m} ({origin})",
                                {"prql": p, "origin": origin, "wfRq": m, "python": py, "where": info, "class": fid})
@@ -615,6 +640,14 @@ def run(ctx):
     nbad += monitor(ctx, "corpus", corpus, fixed, 1.0)
     nbad += monitor(ctx, "repo-queries", query_files(), fixed, 1.0)
     nbad += monitor(ctx, "book", book_programs(), fixed, 0.5)
+    # directed shapes (seed independent): inline sub-pipelines as join sides (select not last), group pipelines ending in select /
+    # derive as the LAST transform, one let-table read several times, joins over all columns
+    directed = relgen.systematic_cases(2 if quick else 3, dict(SAFE, force_shape=["join_inline", "group_inner", "append_let"]), seed=161,
+                                       sample=(random.Random(161), 1200), kinds=["select", "derive", "filter", "sort", "take", "aggregate", "group_take", "join", "append"], variants=2)
+    dia = relgen.diamond_cases(SAFE, seed=162)
+    directed += random.Random(163).sample(dia, 250) if quick else dia
+    directed += relgen.setop_cases(SAFE)
+    nbad += monitor(ctx, "directed-shapes", [("relgen:directed", c.prql) for c in directed], fixed, 1.0)
     for label, rng, n, prof in [("safe", fixed, 1000 if quick else 8000, SAFE), ("full", fixed, 1000 if quick else 8000, FULL),
                                 ("undeclared", fixed, 800 if quick else 6000, UNDECL),
                                 ("seed-tail-full", ctx.rng, 800 if quick else 8000, FULL),
